@@ -224,6 +224,9 @@ def mutant_bank(pid):
     bank = []
     for d in sorted(glob.glob(os.path.join(core.VERIF, "seeded", pid + "-*"))):
         bank.append(("seeded/" + os.path.basename(d), os.path.join(d, "patch.diff"), "breaking"))
+    # behaviour-preserving refactors written by sub-agents for this property (must stay silent)
+    for d in sorted(glob.glob(os.path.join(core.VERIF, "neutral", pid + "-*"))):
+        bank.append(("neutral/" + os.path.basename(d), os.path.join(d, "patch.diff"), "neutral"))
     for m in sorted(glob.glob(os.path.join(core.VERIF, "mutants", "*.patch"))):
         name = os.path.basename(m)[:-6]
         if name.startswith("neutral_"):
